@@ -443,6 +443,18 @@ static void op_inner(int e, const uint8_t* in, size_t n, bool fill, size_t extra
     report(e, x);
 }
 
+static void op_fresh(const char* e, size_t n)
+{
+    g_overrun = 0;
+    int ee = !strcmp(e, "little") ? E_LITTLE : !strcmp(e, "big") ? E_BIG : E_NATIVE;
+    Root x;
+    try { if (n) grow_root(x, n); }
+    catch (...) { kv_str("exception", exc_name()); kv_str("stage", "grow"); return; }
+    kv_bool("ok", true);
+    report(ee, x);
+    kv_uint("heap_overrun", g_overrun);
+}
+
 static void op(const char* e, const uint8_t* in, size_t n, bool fill, size_t extra, bool deep)
 {
     g_overrun = 0;
@@ -481,6 +493,10 @@ int main()
         else if (nt == 5 && !strcmp(tok[0], "overfill") && parse_hex(tok[2], &data, &n))
         {
             op(tok[1], data, n, true, size_t(strtoull(tok[3], 0, 10)), tok[4][0] == '1');
+        }
+        else if (nt == 3 && !strcmp(tok[0], "fresh"))
+        {
+            op_fresh(tok[1], size_t(strtoull(tok[2], 0, 10)));
         }
         else
         {
@@ -608,9 +624,47 @@ def _overfill_code(t):
     return "\n".join(out)
 
 
+def _grow_code(t):
+    """C++ functions that give every vector member (dynamic, limited and greedy arrays, at any depth) n more
+    default-constructed elements — a limited one at most up to its limit —; `grow_root` is the entry point. Used by the
+    "fresh" op to obtain objects without decoding anything."""
+    ds = [d for d in S.decls(t) if _composite(d)]
+    out = []
+    for d in ds:
+        out.append("static void gr_%s(prophy::generated::%s& x, size_t n, int depth);" % (d[1], d[1]))
+    for d in ds:
+        body = []
+        if d[0] == "struct":
+            for fname, k, ft in d[2]:
+                comp = _composite(ft)
+                if ft[0] == "byte" and k[0] != "fixed":
+                    if k[0] == "limited":
+                        body.append("    x.%s.resize(x.%s.size() + n < size_t(%d) ? x.%s.size() + n : size_t(%d));" % (fname, fname, k[1], fname, k[1]))
+                    else:
+                        body.append("    x.%s.resize(x.%s.size() + n);" % (fname, fname))
+                    continue
+                if ft[0] == "byte":
+                    continue
+                if k[0] in ("bound", "greedy"):
+                    body.append("    x.%s.resize(x.%s.size() + n);" % (fname, fname))
+                elif k[0] == "limited":
+                    body.append("    x.%s.resize(x.%s.size() + n < size_t(%d) ? x.%s.size() + n : size_t(%d));" % (fname, fname, k[1], fname, k[1]))
+                if not comp:
+                    continue
+                if k[0] == "plain":
+                    body.append("    if (depth > 0) gr_%s(x.%s, n, depth - 1);" % (ft[1], fname))
+                elif k[0] in ("fixed", "bound", "limited", "greedy"):
+                    body.append("    if (depth > 0) for (size_t i = 0; i < x.%s.size(); ++i) gr_%s(x.%s[i], n, depth - 1);"
+                                % (fname, ft[1], fname))
+        out.append("static void gr_%s(prophy::generated::%s& x, size_t n, int depth)\n{\n"
+                   "    (void)x; (void)n; (void)depth;\n%s\n}" % (d[1], d[1], "\n".join(body)))
+    out.append("static void grow_root(Root& x, size_t n)\n{\n    gr_%s(x, n, 3);\n}" % t[1])
+    return "\n".join(out)
+
+
 def _full_driver(job, base):
     t = S.from_json(job["schema"])
-    body = FULL_BODY.replace("@ROOT@", job["root"]).replace("@OVERFILL@", _overfill_code(t))
+    body = FULL_BODY.replace("@ROOT@", job["root"]).replace("@OVERFILL@", _overfill_code(t) + "\n" + _grow_code(t))
     return (RT_COMMON + RT_FULL + '#include "%s.ppf.hpp"\n#include "%s.ppf.cpp"\n' % (base, base) + body)
 
 
@@ -745,6 +799,8 @@ def _op_line(op):
         return "decode %s %s" % (op[1], op[2] or "-")
     if kind == "overfill":
         return "overfill %s %s %d %d" % (op[1], op[2] or "-", int(op[3]), 1 if (len(op) > 4 and op[4]) else 0)
+    if kind == "fresh":
+        return "fresh %s %d" % (op[1], int(op[2]))
     if kind == "layout":
         return "layout"
     if kind == "swap":
